@@ -93,6 +93,26 @@ Section Chain.
         end
     end.
 
+  (* one entry of `tasks`: _create_task + _register_task for class k declared by config number ci *)
+  Definition add_task (ci : nat) (c : config) (excluded : list nat) (acc : list (str * node)) (k : nat)
+    : res (list (str * node)) :=
+    match cls k with
+    | inr e => inr e
+    | inl tc =>
+        if c_abstract tc || existsb (Nat.eqb k) excluded then inl acc
+        else
+          match set_values (c_params tc) (cf_data c) with
+          | inr e => inr e
+          | inl ps =>
+              let name := full_name (c_slug tc) (cf_ns c) in
+              let nd := {| n_cls := k; n_cfg := ci; n_ns := cf_ns c; n_params := ps; n_inputs := [] |} in
+              match dget name acc with
+              | Some old => if Nat.eqb (n_cfg old) ci then inl (dset name nd acc) else inr EConflict
+              | None => inl (dset name nd acc)
+              end
+          end
+    end.
+
   Definition create_tasks_of_config (ci : nat) (c : config) (tasks : list (str * node)) : res (list (str * node)) :=
     match collect_classes (lit "excluded_tasks") (cf_data c), collect_classes (lit "tasks") (cf_data c) with
     | inr e, _ => inr e
@@ -101,23 +121,7 @@ Section Chain.
         fold_left (fun (racc : res (list (str * node))) k =>
                      match racc with
                      | inr e => inr e
-                     | inl acc =>
-                         match cls k with
-                         | inr e => inr e
-                         | inl tc =>
-                             if c_abstract tc || existsb (Nat.eqb k) excluded then inl acc
-                             else
-                               match set_values (c_params tc) (cf_data c) with
-                               | inr e => inr e
-                               | inl ps =>
-                                   let name := full_name (c_slug tc) (cf_ns c) in
-                                   let nd := {| n_cls := k; n_cfg := ci; n_ns := cf_ns c; n_params := ps; n_inputs := [] |} in
-                                   match dget name acc with
-                                   | Some old => if Nat.eqb (n_cfg old) ci then inl (dset name nd acc) else inr EConflict
-                                   | None => inl (dset name nd acc)
-                                   end
-                               end
-                         end
+                     | inl acc => add_task ci c excluded acc k
                      end) listed (inl tasks)
     end.
 
